@@ -126,3 +126,34 @@ Example C16_outputs_agree_example :
          /\ r <> None.
 Proof. eexists. vm_compute. split; [left; reflexivity|]. split; [left; reflexivity|discriminate]. Qed.
 Print Assumptions C16_outputs_agree_example.
+
+(* the precondition of C16_ld_modes_total is satisfiable (two variants, two haplotypes and a repeat) *)
+Example C16_inputs_ok_example :
+  let gs := [mkgv 10 0 1 [(0,1); (1,1); (0,0); (1,0)] []; mkgv 11 0 1 [(0,0); (1,1); (0,1); (0,0)] []] in
+  let lines := [HL (mkhap 1 [(10, 1); (11, 1)]); RL 2; HL (mkhap 3 [(11, 0)])] in
+  inputs_ok 10 gs lines [true; false; true; true] = true /\ inputs_ok 3 gs lines [true; true; true; true] = true.
+Proof. vm_compute. split; reflexivity. Qed.
+Print Assumptions C16_inputs_ok_example.
+
+(* Through the repaired entry point (an ID repeated with --id counts once) every requested
+   haplotype or variant is listed exactly once, whatever the --id list. *)
+Theorem C16_ld_requested_listed_once_any_ids :
+  forall target gs lines keep ids fg rows,
+  calc_ld_cli false target gs lines keep ids fg = Ok rows ->
+  NoDup (hap_ids lines) -> NoDup (var_ids gs) ->
+  NoDup (map fst rows) /\
+  forall id, req_in ids id ->
+    (if fg then In id (var_ids gs) else In id (hap_ids lines) /\ id <> target) -> In id (map fst rows).
+Proof. exact requested_listed_once_cli. Qed.
+Print Assumptions C16_ld_requested_listed_once_any_ids.
+
+(* ... which the tree before fixes/C16_repeated_id.patch violated *)
+Example C16_legacy_repeated_id_refuted :
+  wf witness16_dup = true
+  /\ option_map (map fst) (match calc_ld false 5 (l_gs witness16_dup) (l_lines witness16_dup)
+                                 (l_keep witness16_dup) (l_ids witness16_dup) true with
+                           | Ok r => Some r | Err _ => None end) = Some [1; 1]
+  /\ holds_ld witness16_dup = false
+  /\ option_map (map fst) (match model_ld witness16_dup with Ok r => Some r | Err _ => None end) = Some [1].
+Proof. exact legacy_dup_refuted. Qed.
+Print Assumptions C16_legacy_repeated_id_refuted.
